@@ -235,8 +235,8 @@ class DirectCollocation(SamplingMethod):
                 for c, meta, args in stage._constraints["integrator"]:
                     if k==0 and i==0 and not args["include_first"]: continue
                     opti.subject_to(self.eval_at_integrator(stage, c, k, i), scale=args["scale"], meta=meta)
-                for c, meta, _ in stage._constraints["inf"]:
-                    self.add_inf_constraints(stage, opti, c, k, i, meta)
+                for c, meta, args in stage._constraints["inf"]:
+                    self.add_inf_constraints(stage, opti, c, k, i, meta, scale=args["scale"])
                 self.xqk.append(self.q)
             for c, meta, args in stage._constraints["control"]:  # for each constraint expression
                 if k==0 and not args["include_first"]: continue
